@@ -1808,6 +1808,11 @@ class IMAPClientCommand:
 
     #######################################################################
     #
+    def _p_srchkey_undraft(self) -> IMAPSearch:
+        return IMAPSearch("not", search_key=self._p_srchkey_draft())
+
+    #######################################################################
+    #
     def _p_srchkey_unflagged(self) -> IMAPSearch:
         return IMAPSearch("not", search_key=self._p_srchkey_flagged())
 
